@@ -176,3 +176,13 @@ Section Signer.
         end
     end.
 End Signer.
+
+(* A session of one signer instance: the struct privateKeySigner holds only the key signer and
+   no method writes to it, so the verdicts of a sequence of calls are the verdicts of the calls
+   taken one by one (what a cache or any other memory between calls would break; the "session"
+   classes of the C02 driver compare exactly this with the implementation). *)
+Inductive sig_call := VBid (b : bid) | VPreconf (c : preconf).
+Definition sig_verdict (K : bytes -> bytes) (cr : crypto) (c : sig_call) : outcome bytes :=
+  match c with VBid b => verify_bid K cr b | VPreconf p => verify_preconf K cr p end.
+Definition sig_session (K : bytes -> bytes) (cr : crypto) (cs : list sig_call) : list (outcome bytes) :=
+  map (sig_verdict K cr) cs.
